@@ -16,15 +16,25 @@ Definition gi_child_ok (ch : list node) : bool :=
 Definition stat_used (c : cfg) : bool :=
   existsb (fun e => match c_statreq c e with Some _ => true | None => false end) (c_exts c).
 
-(* no unreadable .gitignore under UseGitignore (the one fault site whose error handleFile still returns when
-   filesystem errors are not fatal, see the _refuted theorem); no Stat fault on a file when some FileRequired
-   consults api.Stat() (the loss is then per extractor) or when errors are fatal under a size limit *)
+(* no Stat fault on a file when some FileRequired consults api.Stat() (the loss is then per extractor); and, when
+   filesystem errors are fatal, none of the two non-traversal fault sites that then abort the walk: an unreadable
+   .gitignore under UseGitignore, a lazy-stat fault under a size limit *)
 Fixpoint tree_quiet (c : cfg) (nd : node) : bool :=
   match nd with
   | File _ _ _ _ ff => negb (ff_stat ff && (stat_used c || (c_fatal c && (0 <? c_max_size c)%Z)))
   | Dir _ ch _ =>
-      (negb (c_gitignore c) || gi_child_ok ch) &&
+      (negb (c_gitignore c && c_fatal c) || gi_child_ok ch) &&
       (fix go (l : list node) : bool := match l with [] => true | c1 :: l' => tree_quiet c c1 && go l' end) ch
+  end.
+
+(* every .gitignore that UseGitignore would read can be opened: only then do its patterns apply, and only then
+   can the scan be compared with the scan of the fault-erased tree *)
+Fixpoint gi_readable (c : cfg) (nd : node) : bool :=
+  match nd with
+  | File _ _ _ _ _ => true
+  | Dir _ ch _ =>
+      (negb (c_gitignore c) || gi_child_ok ch) &&
+      (fix go (l : list node) : bool := match l with [] => true | c1 :: l' => gi_readable c c1 && go l' end) ch
   end.
 
 Definition is_fserr (h : hcall) : bool := let '(HC _ _ _ b) := h in b.
